@@ -72,9 +72,9 @@ def find_copies(fn):
     return copies
 
 
-def analyse_copy(prog, trynode, ctor_call, consts):
+def analyse_copy(prog, trynode, ctor_call, consts, domains=None):
     rec = U(ctor_call.func).split(".")[1]
-    doms = dict(DOMAINS)
+    doms = dict(domains or DOMAINS)
     doms["group_PDB"] = [C(rec)]
     discarded = []
 
@@ -228,7 +228,31 @@ def check(prog, rep):
         r2.ok("sibling|single-assembler", "one assembler serves all record kinds")
 
     rule_rows(prog, rep, fn)
+    rep.guarded(rule_no_item_is_cut, prog, rep)
     rule_flag(prog, rep)
+
+
+def rule_no_item_is_cut(prog, rep, rid="R8"):
+    """mmCIF values can be longer than the PDB column they are copied to (chain identifiers of large assemblies: AA, AB ...).  The assembly is
+    analysed once more with every text item allowed to be longer than its column: such a value may lengthen the record - the record classes
+    then refuse the line - but it is never cut, because cutting makes different chains, residues or atoms indistinguishable."""
+    fn = prog.func("cif.py", "atom_site").node
+    consts = prog.module_constants("cif.py")
+    copies = find_copies(fn)
+    r = rep.rule(rid, "an atom_site value longer than its PDB column is never cut to fit (two chains AA and AB would become one chain A)", floor=4)
+    wide = dict(DOMAINS)
+    for item, hi in (("auth_asym_id", 4), ("label_asym_id", 4), ("label_atom_id", 6), ("auth_atom_id", 6), ("label_comp_id", 5), ("auth_comp_id", 5),
+                     ("type_symbol", 3)):
+        wide[item] = [S(f"{item} 1-{hi}", 1, hi)]
+    wide["auth_seq_id"] = [N("resSeq -999..123456", [-999, 1, 9999, 123456])]
+    wide["id"] = [N("atom id 1..1234567", [1, 99999, 1234567])]
+    identity = ("auth_asym_id", "label_asym_id", "label_atom_id", "auth_atom_id", "label_comp_id", "auth_comp_id", "auth_seq_id", "id", "pdbx_PDB_ins_code", "label_alt_id")
+    for idx, (trynode, ctor) in enumerate(copies):
+        rec, results, _disc = analyse_copy(prog, trynode, ctor, consts, domains=wide)
+        cut = sorted({seg.src for _f, v in results for seg in v.segs if seg.kind == "fld" and seg.trunc and seg.src in identity})
+        r.add(f"whole|copy{idx}", not cut, f"copy {idx} ({rec}): over {len(results)} paths with over-long values no identifying item is cut" if not cut else
+              f"copy {idx} ({rec}): {cut} can be cut to fit the column - rows that differ only in the dropped characters become one chain / residue / atom",
+              f"pdb2pqr/cif.py:{trynode.lineno} (atom_site, copy {idx}: {rec})")
 
 
 def rule_rows(prog, rep, fn):
@@ -292,6 +316,54 @@ def rule_rows(prog, rep, fn):
                 if a_ == "get_name":
                     return recv["name"]
         return NotImplemented
+
+    # the records come out in the order of the rows (per model): the pipeline builds chains and finds their ends from the order of the records,
+    # and a PDB file of the same structure lists a capping group or a modified residue (HETATM) where it sits in the chain
+    ITEMS = ["group_PDB", "id", "type_symbol", "label_atom_id", "label_alt_id", "label_comp_id", "label_asym_id", "label_entity_id", "label_seq_id",
+             "pdbx_PDB_ins_code", "Cartn_x", "Cartn_y", "Cartn_z", "occupancy", "B_iso_or_equiv", "pdbx_formal_charge", "auth_seq_id", "auth_comp_id",
+             "auth_asym_id", "auth_atom_id", "pdbx_PDB_model_num"]
+
+    def full_category(rows):
+        """rows: [(group, serial, atom, residue name, residue number, model)]"""
+        data = []
+        for g, ser, an, rn, seq, model in rows:
+            v = {"group_PDB": g, "id": str(ser), "type_symbol": an[0], "label_atom_id": an, "label_alt_id": ".", "label_comp_id": rn, "label_asym_id": "A",
+                 "label_entity_id": "1", "label_seq_id": str(seq), "pdbx_PDB_ins_code": "?", "Cartn_x": f"{ser}.000", "Cartn_y": "2.000", "Cartn_z": "3.000",
+                 "occupancy": "1.00", "B_iso_or_equiv": "10.00", "pdbx_formal_charge": "?", "auth_seq_id": str(seq), "auth_comp_id": rn, "auth_asym_id": "A",
+                 "auth_atom_id": an, "pdbx_PDB_model_num": str(model)}
+            data.append([v[i] for i in ITEMS])
+        return {"__class__": "DataCategory", "name": "atom_site", "row_count": len(data), "attribute_list": list(ITEMS), "row_list": data, "data": data}
+
+    capped = [("HETATM", 1, "C", "ACE", 0), ("HETATM", 2, "O", "ACE", 0), ("HETATM", 3, "CH3", "ACE", 0), ("ATOM", 4, "N", "ALA", 1), ("ATOM", 5, "CA", "ALA", 1),
+              ("ATOM", 6, "C", "ALA", 1), ("ATOM", 7, "O", "ALA", 1), ("HETATM", 8, "N", "MSE", 2), ("HETATM", 9, "CA", "MSE", 2), ("ATOM", 10, "N", "GLY", 3),
+              ("ATOM", 11, "CA", "GLY", 3), ("HETATM", 12, "O", "HOH", 101)]
+    layouts = [("one model, a cap in front of the chain and a modified residue inside it", [row + (1,) for row in capped]),
+               ("two models, same rows", [row + (1,) for row in capped] + [row + (2,) for row in capped])]
+    wa = f"pdb2pqr/cif.py:{fn.lineno} (atom_site)"
+    for label, rows in layouts:
+        current["atoms"], current["block"] = full_category(rows), {"__class__": "DataContainer"}
+        run = ObjRunner(prog, "cif.py", extra_hook=extra)
+        try:
+            res = run.call_function("cif.py", "atom_site", current["block"])
+        except Flow as fl:
+            r7.bad(f"record-order|{label}", f"atom_site stops with {fl.value} on the model category ({label})", wa)
+            continue
+        recs = res[0] if isinstance(res, (tuple, list)) and res and isinstance(res[0], list) else None
+        if recs is None:
+            raise AnalysisError(f"cif.atom_site: the result on the model category is not (records, errors): {res!r:.120}")
+        got, model = [], 1
+        for rec in recs:
+            cls = rec.get("__class__") if hasattr(rec, "get") else None
+            if cls in ("ATOM", "HETATM"):
+                got.append((cls, rec.get("serial"), model))
+            elif cls == "ENDMDL":
+                model += 1
+        want = [(g, ser, m) for g, ser, _a, _r, _s, m in rows]
+        ok = got == want
+        first_bad = next((k for k, (a_, b_) in enumerate(zip(got, want)) if a_ != b_), min(len(got), len(want))) if not ok else None
+        r7.add(f"record-order|{label}", ok, f"{label}: {len(rows)} rows -> {len(got)} coordinate records in row order" if ok else
+               f"{label}: record {first_bad} is {got[first_bad] if first_bad < len(got) else 'missing'}, the row is {want[first_bad] if first_bad < len(want) else 'absent'} "
+               f"(kind, serial, model) -- records {[(c[0], c[1]) for c in got[:12]]}: chain ends and residue order then differ from the PDB reading of the same structure", wa)
 
     # three files read one after the other in one process; mmCIF prescribes no item order, so each lists its items in another column order
     files = [(["9", "9", "10", "10", "9", "2"], ["group_PDB", "id", "pdbx_PDB_model_num", "Cartn_x"]),
